@@ -147,6 +147,13 @@ def plan_c03(tier, seed):
     for cfg in cfgs[:2] if q else cfgs:
         for k in ROUTING_KINDS:
             jobs += [Job("h_compose", cfg, "asan", "routing", k, c, ops=_scale(tier, 200, 400), cpu=_scale(tier, 40, 120)) for c in chunks(_scale(tier, 20, 400), 20 if q else 100)]
+    # refusals elsewhere: joint memory that cannot hold a request (out_of_fixed_memory, nothing written outside the block) and a
+    # wrapped allocator that throws behind a mutex-guarded storage (the storage must be usable afterwards)
+    for cfg in cfgs[:2] if q else cfgs:
+        for k in JOINT_KINDS:
+            jobs.append(Job("h_joint", cfg, "asan", "layout", k, (0, _scale(tier, 30, 300)), ops=_scale(tier, 40, 60), cpu=300))
+    for k in ("direct_storage+monitor-mutex", "reference_storage+monitor-mutex", "any_reference+monitor-mutex"):
+        jobs += [Job("h_thread", "rwd", "plain", "mutex", k, c, ops=_scale(tier, 2000, 4000), extra=["--maxthreads", "4"], cpu=900) for c in chunks(_scale(tier, 3, 30), 3)]
     return dict(jobs=jobs, level="fault_enumeration",
                 rule="(faults) a seeded history per kind (three pools, four collections, two stacks over probe upstreams) is run once to count its "
                      "upstream calls K, then once more for each k < K (quick: k <= 12 plus six seeded k above) with the upstream throwing at call k "
@@ -250,6 +257,7 @@ FORWARD_KINDS = ["adapter<leaf>", "adapter<leaf-min>", "reference<leaf>", "any_r
                  "segregator<64,256,leaf>", "memory_resource<leaf>", "memory_resource<leaf-varying-max>", "tracked<aligned<leaf>>",
                  "aligned<tracked<leaf>>", "thread_safe<aligned<leaf-min>>", "segregator<threshold(256) tracked<leaf>,aligned<leaf>>",
                  "tracked<segregator<threshold(64) leaf,leaf>>", "reference<tracked<aligned<leaf>>>",
+                 "reference<tracked<stateless-leaf>>",
                  "memory_resource<segregator<threshold(64) leaf,leaf>>", "std_allocator+deleters"]
 
 
@@ -293,6 +301,10 @@ def plan_c09(tier, seed):
         for k in ("tracked<fallback<fallback<leaf,leaf>,leaf>>", "fallback<tracked<leaf>,leaf>", "aligned<fallback<leaf,leaf>>",
                   "fallback<leaf-node-functions-only,leaf>", "fallback<reference<leaf>,reference<leaf>>", "fallback<any_reference<leaf>,reference<leaf>>"):
             jobs += [Job("h_compose", cfg, "asan", "routing", k, c, ops=_scale(tier, 200, 400), cpu=_scale(tier, 40, 120)) for c in chunks(n, ck)]
+    # the type-erased reference under containers: allocators of different (stateless and stateful) types behind any_std_allocator
+    for cfg in cfgs[:1] if q else cfgs:
+        for k in ["%s/any_std_allocator-stateless" % c for c in ("list", "set", "vector", "unordered_map")] + ["vector/any_std_allocator", "list/any_std_allocator"]:
+            jobs += [Job("h_stl", cfg, "asan", "programs", k, c, ops=_scale(tier, 150, 300), cpu=600) for c in chunks(_scale(tier, 40, 800), 40 if q else 200)]
     return dict(jobs=jobs, level="exploration",
                 rule="case = (configuration, wrapper composition, index). 22 compositions of allocator_adapter / allocator_reference / "
                      "any_allocator_reference / thread_safe_allocator / aligned_allocator / tracked_allocator / binary_segregator / segregator / "
@@ -392,7 +404,10 @@ def plan_c14(tier, seed):
 STL_CONTAINERS = ["list", "forward_list", "set", "multiset", "map", "multimap", "unordered_set", "unordered_map", "vector", "deque", "basic_string"]
 STL_PROGRAM_KINDS = ["%s/%s" % (c, a) for a in ("std_allocator", "any_std_allocator") for c in STL_CONTAINERS] + ["smart-pointers"] \
     + ["%s/any_std_allocator-stateless" % c for c in ("list", "set", "vector", "unordered_map")] \
-    + ["%s/std_allocator-composed" % c for c in ("list", "vector", "deque", "basic_string", "unordered_map")]
+    + ["%s/std_allocator-composed" % c for c in ("list", "vector", "deque", "basic_string", "unordered_map")] \
+    + ["list/std_allocator-propagate<move,swap>", "vector/std_allocator-propagate<move,swap>", "map/std_allocator-propagate<move,swap>",
+       "list/std_allocator-propagate<copy>", "unordered_set/std_allocator-propagate<copy>", "set/std_allocator-propagate<swap>",
+       "deque/std_allocator-propagate<swap>", "list/std_allocator-propagate<none>", "vector/std_allocator-propagate<none>"]
 NODESIZE_KINDS = ["forward_list", "list", "set", "multiset", "unordered_set", "unordered_multiset", "map", "multimap", "unordered_map",
                   "unordered_multimap", "shared_ptr"]
 
@@ -405,6 +420,8 @@ def plan_c10(tier, seed):
     for cfg in cfgs:
         for k in STL_PROGRAM_KINDS:
             jobs += [Job("h_stl", cfg, "asan", "programs", k, c, ops=_scale(tier, 150, 300), cpu=600) for c in chunks(n, 40 if q else 200)]
+        # deleters and smart-pointer helpers over value types from 1 byte to above 64 KiB, base/derived conversions
+        jobs += [Job("h_compose", cfg, "asan", "forward", "std_allocator+deleters", c, ops=_scale(tier, 200, 1000), cpu=300) for c in chunks(_scale(tier, 40, 400), 40 if q else 200)]
     if q:
         for k in NODESIZE_KINDS:
             jobs.append(Job("h_stl", "rwd", "asan", "nodesize", k, (0, 50), cpu=600))
@@ -617,8 +634,12 @@ def plan_c19(tier, seed):
         jobs += [Job("h_arith", "rwd", fl, "small", "all", c, cpu=120) for c in chunks(64, 8)]
         jobs += [Job("h_arith", "rwd", fl, "boundary", "all", c, cpu=120) for c in chunks(65, 13)]
         jobs += [Job("h_arith", "rwd", fl, "buckets", "all", (0, 16), cpu=120)]
+        # bucket selection from several threads at once (pure function of the size)
+        if fl != "casan":
+            jobs += [Job("h_arith", "rwd", fl, "buckets-threads", "all", (0, 5 if q else 20), cpu=300)]
         # collections with static storage duration (created before main): the same bucket selection
         jobs += [Job("h_arith", cfg, fl, "buckets-static", "all", (0, 1), cpu=120) for cfg in (["rwd", "dbg"] if q else ["rel", "rwd", "dbg"])]
+    jobs += [Job("h_arith", "rwd", "tsan", "buckets-threads", "all", (0, 3 if q else 10), extra=["--lookups", "20000"], cpu=300)]
     nrand = 16 if q else 100
     per = 62500 if q else 1000000
     jobs += [Job("h_arith", "rwd", "asan" if q else "plain", "random", "all", c, extra=["--samples", str(per)], cpu=300) for c in chunks(nrand, 1)]
@@ -627,7 +648,8 @@ def plan_c19(tier, seed):
                      "alignments; seeded 64-bit values x a seeded alignment; bucket selection for every size 1..max for three list types x two bucket "
                      "distributions x sixteen maximum node sizes (1..7, below the lists' own minimum node size, included), again after the array "
                      "was move-assigned, and for six collection objects with static storage duration that are constructed before main (compared with "
-                     "the same object created in main; four live nodes of every size must be disjoint and keep their bytes). evaluations = function evaluations compared with a definitional reference (loops / "
+                     "the same object created in main; four live nodes of every size must be disjoint and keep their bytes), and from 2..6 threads at "
+                     "once, each with arrays and size ranges of its own (plain and under ThreadSanitizer); is_valid_alignment against a bit count. evaluations = function evaluations compared with a definitional reference (loops / "
                      "128-bit arithmetic); distinct_nontrivial = distinct (function input) tuples, counted exactly for the enumerated domains and by a "
                      "hash set for seeded samples of up to 2e6 values (larger sample runs count 0 for their part). Results not representable in 64 "
                      "bits are counted (not_representable_unjudged) and not judged.",
